@@ -411,6 +411,9 @@ class _MutexProtocol(Protocol):
     ) -> Optional[bool]: ...
 
 
+_exec_once_mutex_lock = threading.Lock()
+
+
 class _CompoundListener(_InstanceLevelDispatch[_ET]):
     __slots__ = (
         "_exec_once_mutex",
@@ -433,7 +436,9 @@ class _CompoundListener(_InstanceLevelDispatch[_ET]):
         self._is_asyncio = True
 
     def _get_exec_once_mutex(self) -> _MutexProtocol:
-        with util.mini_gil:
+        # a real lock on all builds: the check-then-set below spans a call
+        # (the mutex constructor), so the GIL alone does not make it atomic
+        with _exec_once_mutex_lock:
             if self._exec_once_mutex is not None:
                 return self._exec_once_mutex
 
